@@ -4,6 +4,7 @@ package c20
 import (
 	"fmt"
 	"unsafe"
+	"verif/mc/guardpage"
 
 	"github.com/segmentio/encoding/ascii"
 	"verif/mc/explore"
@@ -235,6 +236,119 @@ func surroundings(c *explore.Ctx) {
 	}
 	if c.WantSample() {
 		c.Case(map[string]any{"len": n, "outside": fmt.Sprintf("%#x", out), "offsets": "0..16", "spare_capacities": "0,1,7,8,9,64"})
+	}
+}
+
+// ---- page-edge: operands that end at the last accessible byte / start at the first one
+
+var edgeA, edgeB *guardpage.Region
+
+func pageEdge(c *explore.Ctx) {
+	if edgeA == nil {
+		edgeA, edgeB = guardpage.New(), guardpage.New()
+	}
+	n := c.Choose(maxLen(c, 131, 321))
+	var cases int64
+	var digest uint64
+	plain := make([]byte, n)
+	for _, fill := range []byte{'a', 'Z', ' '} {
+		for i := range plain {
+			plain[i] = fill
+		}
+		for _, atEnd := range []bool{true, false} {
+			place := func(r *guardpage.Region, b []byte) []byte {
+				if atEnd {
+					return r.AtEnd(b)
+				}
+				return r.AtStart(b, 0x80)
+			}
+			where := map[bool]string{true: "ending at the last accessible byte", false: "starting at the first accessible byte"}[atEnd]
+			for pos := -1; pos < n; pos++ {
+				vals := []int{0x80, 0x7f, 0x1f, 'A', 'z'}
+				if pos < 0 {
+					vals = []int{0}
+				}
+				for _, val := range vals {
+					if pos >= 0 {
+						plain[pos] = byte(val)
+					}
+					b := place(edgeA, plain)
+					var gv, gvs, gp, gps bool
+					fault, msg := guardpage.Faults(func() {
+						gv, gvs, gp, gps = ascii.Valid(b), ascii.ValidString(str(b)), ascii.ValidPrint(b), ascii.ValidPrintString(str(b))
+					})
+					cases++
+					if fault {
+						c.Fail("page-edge:reads-outside-the-operand", "Valid / ValidPrint of a %d-byte operand %s touches memory outside it (byte %#x at %d): %s", n, where, val, pos, msg)
+					} else if wv, wp := refValid(plain), refValidPrint(plain); gv != wv || gvs != wv || gp != wp || gps != wp {
+						c.Fail("page-edge:Valid-differs", "Valid/ValidString/ValidPrint/ValidPrintString of a %d-byte operand %s (byte %#x at %d) = %v/%v/%v/%v, want %v/%v", n, where, val, pos, gv, gvs, gp, gps, wv, wp)
+					}
+					if val < 0x80 {
+						// fold functions: the other operand differs in case only, at the edge of another region;
+						// prefixes and suffixes of every length up to 9 and the full length
+						other := make([]byte, n)
+						for i := range other {
+							other[i] = plain[i] ^ 0x20
+							if lower(plain[i]) == plain[i] && (plain[i] < 'a' || plain[i] > 'z') {
+								other[i] = plain[i]
+							}
+						}
+						o := place(edgeB, other)
+						var ge, ges, gpre, gsuf bool
+						fault, msg := guardpage.Faults(func() {
+							ge, ges = ascii.EqualFold(b, o), ascii.EqualFoldString(str(b), str(o))
+							gpre, gsuf = ascii.HasPrefixFold(b, o), ascii.HasSuffixFold(b, o)
+						})
+						if fault {
+							c.Fail("page-edge:reads-outside-the-operand", "EqualFold / HasPrefixFold / HasSuffixFold of %d-byte operands %s touch memory outside them: %s", n, where, msg)
+						} else if we := refEqualFold(plain, other); ge != we || ges != we || gpre != refHasPrefixFold(plain, other) || gsuf != refHasSuffixFold(plain, other) {
+							c.Fail("page-edge:Fold-differs", "EqualFold/EqualFoldString/HasPrefixFold/HasSuffixFold of %d-byte operands %s = %v/%v/%v/%v, want %v", n, where, ge, ges, gpre, gsuf, we)
+						}
+						for _, k := range []int{0, 1, 7, 8, 9, 15, 16, 17} {
+							if k > n {
+								continue
+							}
+							pre, suf := place(edgeB, other[:k]), other[n-k:]
+							var g1, g2 bool
+							fault, msg := guardpage.Faults(func() { g1 = ascii.HasPrefixFold(b, pre) })
+							if !fault {
+								sufP := place(edgeB, suf)
+								fault, msg = guardpage.Faults(func() { g2 = ascii.HasSuffixFold(b, sufP) })
+							}
+							if fault {
+								c.Fail("page-edge:reads-outside-the-operand", "HasPrefixFold / HasSuffixFold (%d-byte operand, %d-byte affix) %s touch memory outside them: %s", n, k, where, msg)
+							} else if !g1 || !g2 {
+								c.Fail("page-edge:Fold-differs", "HasPrefixFold/HasSuffixFold (%d-byte operand, %d-byte affix equal up to case) %s = %v/%v, want true", n, k, where, g1, g2)
+							}
+						}
+						cases += 10
+					}
+					var bits uint64
+					for k, g := range []bool{gv, gvs, gp, gps} {
+						if g {
+							bits |= 1 << k
+						}
+					}
+					digest += mix(uint64(n)<<32|uint64(pos+1)<<8|uint64(val), bits)
+				}
+				if pos >= 0 {
+					plain[pos] = fill
+				}
+			}
+		}
+	}
+	c.Inner(cases)
+	c.Count("digest", int64(digest))
+	c.Nontrivial(uint64(n))
+	if c.Failed() {
+		c.Outcome("fail")
+	} else if n == 0 {
+		c.Outcome("empty")
+	} else {
+		c.Outcome("accepts-and-rejects")
+	}
+	if c.WantSample() {
+		c.Case(map[string]any{"len": n, "placements": "ending at the last accessible byte; starting at the first accessible byte"})
 	}
 }
 
@@ -507,6 +621,7 @@ func Spec() *explore.Spec {
 		Families: []*explore.Family{
 			{Name: "valid-sweep", Variants: both, ShardDepth: 2, Body: validSweep, Doc: "every (length, alignment 0..31, position, byte value 0..255) single deviation from an all-valid string, 4 fillers"},
 			{Name: "surroundings", Variants: both, ShardDepth: 2, Body: surroundings, Doc: "operands that are windows of a larger buffer: window length 0..40 (thorough 72) x 17 offsets x spare capacity {0,1,7,8,9,64} x 8 values of the bytes outside the window (0x80, 0x7f, 0x5f, 0x00, 0xff, 0x1f, 'A', space) x 4 fillers x 7 deviating bytes at every position: Valid / ValidPrint / EqualFold / HasPrefixFold / HasSuffixFold and their String variants answer from the window alone"},
+			{Name: "page-edge", Variants: both, ShardDepth: 1, Body: pageEdge, Doc: "operands of every length 0..130 (thorough 320) placed so that they end at the last byte before an inaccessible page, and so that they start at the first byte behind one (3 fillers, a deviating byte at every position, affixes of 8 lengths): no function touches memory outside its operands (a fault is caught) and every answer equals the byte-wise definition"},
 			{Name: "fold-pairs", Variants: both, ShardDepth: 2, Body: foldSweep, Doc: "every ordered pair of ASCII bytes at every position of equal-length operands, the other positions filled with each of 10 neighbour classes (letters of both cases, digit, NUL, DEL, space, and the bytes next to the letter ranges) for lengths <= 12 (thorough 24), one (thorough three) above"},
 			{Name: "affix-lengths", Variants: both, ShardDepth: 2, Body: affixSweep, Doc: "every (len s, len affix) combination with single deviations"},
 			{Name: "aliased-operands", Variants: both, ShardDepth: 2, Body: aliasSweep, Doc: "both operands are views of one buffer: 5 x 5 start offsets x every pair of lengths x 3 contents"},
